@@ -3167,6 +3167,41 @@ class PyCdlib:
 
         return num_bytes_to_add
 
+    def _check_new_joliet_path(self, joliet_path):
+        # type: (str) -> None
+        """
+        An internal method to check that a new entry can be created at the
+        given Joliet path, without modifying anything.
+
+        Parameters:
+         joliet_path - The Joliet path the new entry will be created at.
+        Returns:
+         Nothing.
+        """
+        (name, parent) = self._joliet_name_and_parent_from_path(self._normalize_joliet_path(joliet_path))
+        if not parent.is_dir():
+            raise pycdlibexception.PyCdlibInvalidInput('Trying to add a child to a record that is not a directory')
+        for child in parent.children:
+            if child.file_ident == name:
+                raise pycdlibexception.PyCdlibInvalidInput('Failed adding duplicate name to parent')
+
+    def _check_new_udf_path(self, udf_path):
+        # type: (str) -> None
+        """
+        An internal method to check that a new entry can be created at the
+        given UDF path, without modifying anything.
+
+        Parameters:
+         udf_path - The UDF path the new entry will be created at.
+        Returns:
+         Nothing.
+        """
+        if self.udf_root is None:
+            raise pycdlibexception.PyCdlibInvalidInput('Can only specify a UDF path for a UDF ISO')
+        (name_unused, parent) = self._udf_name_and_parent_from_path(utils.normpath(udf_path))
+        if parent is None or not parent.is_dir():
+            raise pycdlibexception.PyCdlibInvalidInput('Can only add a UDF File Identifier to a directory')
+
     def _add_fp(self, fp, length, manage_fp, iso_path, rr_name,
                 joliet_path, udf_path, file_mode, eltorito_catalog):
         # type: (Optional[Union[BinaryIO, str]], int, bool, Optional[str], Optional[str], Optional[str], Optional[str], Optional[int], bool) -> int
@@ -3226,6 +3261,13 @@ class PyCdlib:
 
         if length > (2**32) - 1 and self.interchange_level < 3:
             raise pycdlibexception.PyCdlibInvalidInput('File sizes for interchange level < 3 must be less than 4GiB')
+
+        # Validate the Joliet and UDF destinations before anything is
+        # modified, so that a refused call leaves the ISO untouched.
+        if joliet_path:
+            self._check_new_joliet_path(joliet_path)
+        if udf_path:
+            self._check_new_udf_path(udf_path)
 
         left = length
         offset = 0
@@ -4726,6 +4768,13 @@ class PyCdlib:
         if file_mode is None:
             file_mode = 0o040555
 
+        # Validate the Joliet and UDF destinations before anything is
+        # modified, so that a refused call leaves the ISO untouched.
+        if joliet_path is not None:
+            self._check_new_joliet_path(joliet_path)
+        if udf_path is not None:
+            self._check_new_udf_path(udf_path)
+
         num_bytes_to_add = 0
         if iso_path is not None:
             iso_path_bytes = utils.normpath(iso_path)
@@ -5321,6 +5370,13 @@ class PyCdlib:
         if joliet_path is not None and self.joliet_vd is None:
             # Rule 9
             raise pycdlibexception.PyCdlibInvalidInput('A Joliet path can only be specified for a Joliet ISO')
+
+        # Validate the Joliet and UDF destinations before anything is
+        # modified, so that a refused call leaves the ISO untouched.
+        if joliet_path is not None:
+            self._check_new_joliet_path(joliet_path)
+        if udf_symlink_path is not None:
+            self._check_new_udf_path(udf_symlink_path)
 
         # Checks complete, we can go on to make the symlink.
 
